@@ -63,7 +63,9 @@ MCPatternsOf(sd) ==
                                                               \* behind a text anchor (such patterns have no terminator to report, but the promise stands)
                                                               UCat(ULook("bot"), UCat(ULit(SA), UCat(ULit(SLF), ULit(SB)))),
                                                               UCat(ULook("bot"), UCat(ULit(SA), UCat(UWCls(TRUE), ULit(SB)))),
-                                                              UCat(ULit(SA), UCat(UCls({SA}, TRUE), UCat(ULit(SB), ULook("eot"))))}}
+                                                              UCat(ULit(SA), UCat(UCls({SA}, TRUE), UCat(ULit(SB), ULook("eot")))),
+                                                              \* the terminator next to a byte that is not UTF-8, in byte mode
+                                                              UNoU(UCat(ULit(SFF), ULit(SLF))), UNoU(UCat(ULit(SA), UCat(ULit(SFF), ULit(SLF))))}}
                          \* the same as fixed strings (-F): a literal holding the terminator must be rejected, not searched for
                          \cup {[sd EXCEPT !.pats = <<LitCat(s)>>, !.fixed = TRUE] :
                                  s \in {<<SA, SLF, SB>>, <<SLF>>, <<SA, SLF>>, <<SA, SCR, SB>>, <<SA, SNUL, SB>>, <<SDOT, SLF>>}}
